@@ -472,12 +472,6 @@ def _add_all_sources(ret_src, params, from_source):
         ret_src.setdefault(param.name, []).extend(
             from_source.get(param.name, ()))
 
-def _exclude_from_seq(seq, el):
-    for i, x in enumerate(seq):
-        if el is x:
-            seq[i] = None
-            break
-
 def merge_depths(l, r):
     ret = dict(l)
     for func, depth in r.items():
@@ -549,11 +543,11 @@ class _Merger(object):
                 if l_param:
                     self._merge_unbalanced_pos(
                         l_param, self.l.sources,
-                        ir_pokargs, self.r.varargs, self.r.sources)
+                        ir_pokargs, self.r.varargs, self.r.sources, 1)
                 else:
                     self._merge_unbalanced_pos(
                         r_param, self.r.sources,
-                        il_pokargs, self.l.varargs, self.l.sources)
+                        il_pokargs, self.l.varargs, self.l.sources, 0)
 
         for l_param, r_param in zip_longest(il_pokargs, ir_pokargs):
             if l_param and r_param:
@@ -584,10 +578,10 @@ class _Merger(object):
 
         if self.l_unmatched_kwoargs:
             self._merge_unmatched_kwoargs(
-                self.l_unmatched_kwoargs, self.r.varkwargs, self.l.sources)
+                self.l_unmatched_kwoargs, self.r.varkwargs, self.l.sources, 1)
         if self.r_unmatched_kwoargs:
             self._merge_unmatched_kwoargs(
-                self.r_unmatched_kwoargs, self.l.varkwargs, self.r.sources)
+                self.r_unmatched_kwoargs, self.l.varkwargs, self.r.sources, 0)
 
         self.varargs = self._add_starargs(
             self.varargs_src, self.l.varargs, self.r.varargs)
@@ -617,14 +611,14 @@ class _Merger(object):
         return ret
 
     def _merge_unbalanced_pos(self, existing, src,
-                              convert_from, o_varargs, o_src):
+                              convert_from, o_varargs, o_src, o_index):
         try:
             other = next(convert_from)
         except StopIteration:
             if o_varargs:
                 self.posargs.append(existing)
                 _add_sources(self.src, existing.name, src)
-                _exclude_from_seq(self.varargs_src, o_varargs)
+                self.varargs_src[o_index] = None
             elif existing.default == existing.empty:
                 raise ValueError('Unmatched positional parameter: {0}'
                                  .format(existing))
@@ -665,11 +659,11 @@ class _Merger(object):
             raise ValueError('Unmatched regular parameter: {0}'
                              .format(existing))
 
-    def _merge_unmatched_kwoargs(self, unmatched_kwoargs, o_varkwargs, from_src):
+    def _merge_unmatched_kwoargs(self, unmatched_kwoargs, o_varkwargs, from_src, o_index):
         if o_varkwargs:
             self.kwoargs.update(unmatched_kwoargs)
             _add_all_sources(self.src, unmatched_kwoargs.values(), from_src)
-            _exclude_from_seq(self.varkwargs_src, o_varkwargs)
+            self.varkwargs_src[o_index] = None
         else:
             non_defaulted = [
                 arg
